@@ -23,7 +23,7 @@ RULE = ("(configuration, sample x, cut k, replacement tail y) tuples, stratified
         "the original tail; distinct = hash of the tuple")
 REQUIRED = [f"prefix_checked:{nn.label({'test': a, 'estim': b, 'bet': c})}" for a, b, c in nn.COMBOS] + \
            ["truncate_checked", "estim_checked", "bet_checked", "k_is_1", "k_is_n_minus_1", "truncation_lowered_kth"] + \
-           [f"increment_affine_checked:{t}" for t in sorted({c[0] for c in nn.COMBOS})] + ["long_samples"]
+           [f"increment_affine_checked:{t}" for t in sorted({c[0] for c in nn.COMBOS})] + ["long_samples", "configurations_whose_bound_is_not_a_dyadic_rational"]
 ASSUMPTIONS = ["numpy's cumulative kernels are sequential, so prefix-stability is checked with bit equality",
                "both samples continue beyond the cut (the property's own hypothesis)"]
 N_CASES = {"quick": 160000, "thorough": 1500000}
@@ -51,7 +51,7 @@ def run_shard(spec, rec):
                     rec.count("long_samples")
                     run_case({"cfg": cfg, "x_long": desc, "k": k, "y": y, "stratum": "long_sample", "tail": "random"}, rec)
             continue
-        cfg = nn.gen_cfg(rng, combo=combo, n_max=rng.choice((4, 8, 12, 30)))
+        cfg = nn.gen_cfg(rng, combo=combo, n_max=rng.choice((4, 8, 12, 30)), nondyadic_u=0.15)
         N = nn.cfgN(cfg)
         cap = N if math.isfinite(N) else 20
         if cap < 2:
@@ -88,6 +88,8 @@ def run_case(case, rec):
     x = [float(v) for v in (case["x"] if "x" in case else nn.expand_long(case["x_long"], cfg))]
     n = len(x)
     rec.case(case, nontrivial=(len(set(x)) > 1 and y != x[k:k + len(y)]))
+    if (cfg["u"] * 2.0 ** 30) % 1 != 0:
+        rec.count("configurations_whose_bound_is_not_a_dyadic_rational")
     if k == 1:
         rec.count("k_is_1")
     if k == n - 1:
